@@ -5,7 +5,7 @@ import ast
 
 from ..absint import Interp, ObjV, VecV
 from ..forms import Const, Form, SliceV, TupleV, fpow, mk_fn
-from ..rules import S
+from ..rules import S, check_late_binding
 from ..srcmodel import src_of
 
 EXPLANATION = (
@@ -38,6 +38,62 @@ def strip_clip(v):
             if inner and inner[0] == "fn" and inner[1] == "minimum":
                 return inner[2][0], a[2][1], inner[2][1]
     return None
+
+
+def _lag_rounding(ctx, fs_):
+    """lag = floor(p*len/100) is a *discontinuous* function of a floating-point quotient, so the order of the two roundings
+    matters: read with the language's precedence the statement's formula is floor((p*len)/100) - the product first (it is
+    exact whenever p*len is an integer), one division last.  `(p/100)*len` rounds p/100 first and lands one below the
+    integer for e.g. p=29, len=100 (28.999999999999996).  Decided on the expression tree of the truncated quantity with
+    local temporaries inlined; commuting the product or using // instead of int(/) does not matter."""
+    import ast
+    from ..rules import body_nodes
+    from ..srcmodel import src_of
+    data, pct = fs_.params[0], fs_.params[1]
+    assigns = {}
+    for n in body_nodes(fs_):
+        if isinstance(n, ast.Assign) and len(n.targets) == 1 and isinstance(n.targets[0], ast.Name):
+            assigns.setdefault(n.targets[0].id, []).append(n.value)
+
+    def inline(e, depth=0):
+        if isinstance(e, ast.Name) and e.id not in (pct,) and len(assigns.get(e.id, [])) == 1 and depth < 4:
+            v = assigns[e.id][0]
+            if not (isinstance(v, ast.Call) and src_of(v.func).split(".")[-1] in ("sort", "sorted", "array", "asarray")):
+                return inline(v, depth + 1)
+        return e
+
+    def is_len(e):
+        e = inline(e)
+        return (isinstance(e, ast.Call) and src_of(e.func) == "len") or (isinstance(e, ast.Attribute) and e.attr == "size") \
+            or (isinstance(e, ast.Subscript) and isinstance(e.value, ast.Attribute) and e.value.attr == "shape")
+
+    def is_pct(e):
+        e = inline(e)
+        return isinstance(e, ast.Name) and e.id == pct
+
+    def is_100(e):
+        e = inline(e)
+        return isinstance(e, ast.Constant) and e.value in (100, 100.0)
+    found = None
+    for n in body_nodes(fs_):
+        if isinstance(n, ast.Call) and src_of(n.func).split(".")[-1] in ("int", "floor", "trunc") and n.args:
+            arg = inline(n.args[0])
+            names = {x.id for x in ast.walk(arg) if isinstance(x, ast.Name)}
+            if pct in names or any(pct in {y.id for y in ast.walk(inline(x)) if isinstance(y, ast.Name)} for x in ast.walk(arg) if isinstance(x, ast.Name)):
+                found = (n, arg)
+        if isinstance(n, ast.BinOp) and isinstance(n.op, ast.FloorDiv) and is_100(n.right) and found is None:
+            found = (n, ast.BinOp(left=n.left, op=ast.Div(), right=n.right))
+    if found is None:
+        ctx.unknown("C18.3", fs_, fs_.node, "shortest_int: lag rounding", "the truncation producing lag was not found")
+        return
+    node, arg = found
+    ok = isinstance(arg, ast.BinOp) and isinstance(arg.op, ast.Div) and is_100(arg.right)
+    if ok:
+        prod = inline(arg.left)
+        ok = isinstance(prod, ast.BinOp) and isinstance(prod.op, ast.Mult) and ((is_len(prod.left) and is_pct(prod.right)) or (is_pct(prod.left) and is_len(prod.right)))
+    ctx.check("C18.3", ok, fs_, node, f"shortest_int: lag = {src_of(node)}", "floor((p*len)/100): product first, one division last",
+              "the truncated quantity is not (p*len)/100 evaluated product-first: p/100 is rounded before the multiplication, so for lengths and percentages whose "
+              "product is a multiple of 100 (e.g. p=29, len=100) the quotient lands just below the integer and lag is one too small")
 
 
 def run(ctx):
@@ -131,6 +187,7 @@ def run(ctx):
     i, j = lo_a[2], hi_a[2]
     ctx.check("C18.3", isinstance(i, Form) and isinstance(j, Form) and j - i == lag, fs_, rets[0].node, f"shortest_int: upper index - lower index = {(j - i)!r}"[:200], "exactly lag = int(len*p/100) order statistics apart",
               f"the two order statistics are not `lag` apart (lag = {lag!r})")
+    _lag_rounding(ctx, fs_)
     am = mk_fn("argmin", [cand])
     ok_forms = (am, mk_fn("int", [am]))
     tie_sets = [Form.atom(("idx", mk_fn("where", [mk_fn("eq", [cand, mk_fn("min", [cand])])]), Form.num(0))),
@@ -162,6 +219,7 @@ def run(ctx):
             ctx.violation("C18.3", fs_, rets[0].node, "shortest_int: index = argmax(...)", "the widest instead of the shortest interval is selected")
         else:
             ctx.unknown("C18.3", fs_, rets[0].node, f"shortest_int: index {i!r}"[:300], "index selection idiom not recognised")
+    check_late_binding(ctx, "C18.4", ["devices.ADC", "utils.shortest_int"])
     ctx.require_min("C18.1", 4)
     ctx.require_min("C18.2", 7)
     ctx.require_min("C18.3", 2)
